@@ -161,7 +161,27 @@ impl Sx {
 // ---- dimension names: the model's name n is the string "d<n>" ----
 use std::sync::OnceLock;
 static NAMES: OnceLock<Vec<&'static str>> = OnceLock::new();
+// ---- naming B: the same dimension ids rendered as names the CRATE ITSELF uses internally or in
+// non-test code (linear_algebra.rs builds ("i", ..), ("j", ..) and ("r", ..) tensors; the record
+// collectors report ("rows", ..), ("columns", ..)).  ("row" / "column", the default names of the
+// matrix-to-tensor wrapper, are left out: the C12 harness gives them ids of their own.)  Every case is executed under
+// naming A ("d<n>") and under naming B and the two results must be identical (names travel back
+// as ids through `undim`): a routine that builds an intermediate tensor with a hard-coded
+// dimension name must not collide with a caller's dimension of that name.
+use std::cell::Cell;
+thread_local! { static NAMING: Cell<u8> = const { Cell::new(0) }; }
+pub const NAMES_B: [&str; 5] = ["i", "j", "r", "rows", "columns"];
+pub fn set_naming(b: u8) {
+    NAMING.with(|n| n.set(b));
+}
+pub fn naming() -> u8 {
+    NAMING.with(|n| n.get())
+}
+
 pub fn dim(n: usize) -> &'static str {
+    if naming() == 1 && n < NAMES_B.len() {
+        return NAMES_B[n];
+    }
     // Names are slices of leaked strings.  Deliberately, the names of n, 10n and 100n (e.g. "d1",
     // "d10", "d100") are PREFIXES OF ONE ALLOCATION, so they start at the same address while
     // being different names: a library that compared names by pointer instead of by content
@@ -182,6 +202,11 @@ pub fn dim(n: usize) -> &'static str {
     names[n % 256]
 }
 pub fn undim(s: &str) -> usize {
+    if naming() == 1 {
+        if let Some(k) = NAMES_B.iter().position(|b| *b == s) {
+            return k;
+        }
+    }
     s[1..].parse().expect("harness dimension name")
 }
 pub fn shape_sx(shape: &[(&'static str, usize)]) -> Sx {
